@@ -71,11 +71,13 @@ def outcomeStr : Outcome → String
   | .loginRejected => "loginRejected"
   | .ended e => "ended-" ++ endStr e
 
-/-- The environment of the oracle: `verify` is equality of the stored "hash" with the password
-    bytes (the assumed bcrypt behaviour); world = number of handler invocations. -/
+/-- The environment of the oracle.  A stored "hash" is a tagged byte string: `1 :: p` stands for a
+    well-formed bcrypt hash of the password bytes `p` (`verify` accepts exactly `p`: the assumed
+    bcrypt behaviour), anything else (tag 0) for a value that is not a bcrypt hash at all (empty,
+    plaintext, truncated): `verify` accepts nothing.  World = number of handler invocations. -/
 def mkEnv (addr : Bytes) (now noticeId : Nat) (accts : List (Bytes × Bytes)) (bans : List (Bytes × BanGate.Entry)) :
     Env Nat Nat where
-  verify := fun h p => h == p
+  verify := fun h p => h == (1 :: p)
   accts := fun l => accts.lookup l
   bans := ⟨bans⟩
   addr := addr
